@@ -11,7 +11,7 @@ extern unsigned char g_tby_val;   /* the byte value that was handed over at stre
 extern g_u64 g_last_h[8];         /* chaining value produced by the most recent compression call (SHA-1 wipes its state) */
 /* call record of the update/final layer as seen by lib_hash_* (libsha.c) */
 extern unsigned g_up_calls, g_fin_calls; extern int g_up_fn; extern const void *g_up_ctx, *g_up_msg; extern size_t g_up_len;
-extern int g_fin_fn; extern const void *g_fin_ctx, *g_fin_md; extern int g_init_fn; extern const void *g_init_ctx; extern unsigned g_init_calls; extern unsigned char g_fin_byte;
+extern int g_fin_fn; extern const void *g_fin_ctx, *g_fin_md; extern int g_init_fn; extern const void *g_init_ctx; extern unsigned g_init_calls; extern unsigned char g_fin_byte; extern const char *g_up_end; extern int g_up_inorder;
 /* (chaining value, block) -> new chaining value log for the bounded padding lemma: the compression function
  * as an uninterpreted function (entry i = i-th block handed over since the harness reset the log) */
 #define G_LOG_MAX 6
@@ -19,6 +19,6 @@ extern unsigned g_log_n; extern g_u64 g_log_hin[G_LOG_MAX][8], g_log_hout[G_LOG_
 #define GHOST_SHA_DEFS \
   g_u64 g_tb_total, g_tby_k; unsigned g_tby_seen; unsigned char g_tby_val; g_u64 g_last_h[8]; \
   unsigned g_up_calls, g_fin_calls; int g_up_fn; const void *g_up_ctx, *g_up_msg; size_t g_up_len; \
-  int g_fin_fn; const void *g_fin_ctx, *g_fin_md; int g_init_fn; const void *g_init_ctx; unsigned g_init_calls; unsigned char g_fin_byte; \
+  int g_fin_fn; const void *g_fin_ctx, *g_fin_md; int g_init_fn; const void *g_init_ctx; unsigned g_init_calls; unsigned char g_fin_byte; const char *g_up_end; int g_up_inorder; \
   unsigned g_log_n; g_u64 g_log_hin[G_LOG_MAX][8], g_log_hout[G_LOG_MAX][8]; unsigned char g_log_blk[G_LOG_MAX][128];
 #endif
